@@ -18,10 +18,14 @@
                    makes the `$and` raise              / evaluation stops at the first false
                    (kept: C20 relies on an unsupported operator in that position raising)
     laxargs        variable names that do not start with a lower-case letter are accepted / error
+    accbaremissing `{$sum: "$zz"}` (also `$avg $min $max`) with the one bare operand missing makes
+                   the computed field missing / is 0 for `$sum`, null for the others
   Repaired in the library (no longer classes; their witnesses are run as ordinary cases):
     exprtruth, exprmissing, strcasecmp, numtype, adddate, concatstr, nullarg, condkeys, undefvar,
     filtertruth, mapmissing, missingcmp, and of laxargs the parts `$ifNull` with one operand, `$let` / `$cond`
-    with extra fields.
+    with extra fields; minmaxtypes (`$min` / `$max` over values of several types raised TypeError,
+    repaired by 94aa9ad) and sumbool (`$sum` / `$avg` counted booleans as 0 / 1, repaired by
+    2f66991): `$sum $avg $min $max` are inside the fragment now, with no class of their own.
   Scope limits: specraises (the rules reject the expression: no value to compare),
     specunmodelled (no oracle), deepcmp (comparison of documents, nested arrays, ObjectIds, aware
     dates), dupkeys, tzform (the `{date:, timezone:}` argument form of the date operators),
@@ -86,6 +90,18 @@ def eqReasons (a b : Val) : List String :=
   (if hasWideDoc a && hasWideDoc b then ["docorder"] else []) ++
   (if cmpFlat a && cmpFlat b then [] else ["deepcmp"])
 
+/-- reasons for one comparison of the BSON order between two present values, as the ordering
+    operators and `$min` / `$max` make it -/
+def ordReasons (a b : Val) : List String :=
+  (if (a.isArr || b.isArr) && boolNumClash a b then ["boolnum"] else []) ++
+  (if hasWideDoc a && hasWideDoc b then ["docorder"] else []) ++
+  (if cmpFlat a && cmpFlat b then [] else ["deepcmp"])
+
+/-- every value against every later one -/
+def pairwiseReasons : List Val → List String
+  | [] => []
+  | a :: r => (r.map (ordReasons a)).flatten ++ pairwiseReasons r
+
 def isBoolO : Option Val → Bool
   | some (.bool _) => true
   | _ => false
@@ -97,7 +113,7 @@ def arithOps : List String :=
 def provedStrict : List String :=
   arithOps ++ ["$eq", "$ne", "$gt", "$gte", "$lt", "$lte", "$not", "$isArray", "$isNumber",
     "$size", "$concatArrays", "$concat", "$arrayElemAt", "$strcasecmp", "$toLower", "$toUpper",
-    "$toString"] ++ datePartOps
+    "$toString"] ++ datePartOps ++ accOps
 
 def unproved (k : String) : List String :=
   if provedStrict.contains k then [] else ["unproved:" ++ k]
@@ -124,7 +140,8 @@ def strictReasons (k : String) (vs : List (Option Val)) : List String :=
     (match vs with
      | [_, i] => (if isBoolO i then ["boolarith"] else [])
      | _ => [])
-  else []
+  else if k = "$min" || k = "$max" then pairwiseReasons (presentOf vs)
+  else []                          -- `$sum` / `$avg` included: every value that is not a number is ignored
 
 def okReasons {α} (r : R α) : List String :=
   match r with
@@ -239,6 +256,9 @@ mutual
         rAt root env "if" gs ++ rAt root env "then" gs ++ rAt root env "else" gs
       else if k = "$switch" then
         rBranchesAt root env gs ++ (if dhas "default" gs then rAt root env "default" gs else [])
+      else if accOps.contains k then
+        -- the code iterates over the keys of the argument document
+        ["scalararg"] ++ okReasons (sEval root env (.doc gs)) ++ rExpr root env (.doc gs)
       else if strictOps.contains k then
         unproved k ++ (if hasTzKeys (.doc gs) then ["tzform"] else []) ++
         okReasons (sEval root env (.doc gs)) ++ rExpr root env (.doc gs) ++
@@ -251,6 +271,13 @@ mutual
       else ["unproved:" ++ k]
     | [(k, v)] =>
       if k = "$literal" then []
+      else if accOps.contains k then
+        okReasons (sEval root env v) ++ rExpr root env v ++
+        (match sEval root env v with
+         | .ok (some (.arr xs)) => strictReasons k (xs.map some)
+         | .ok (some _) => ["scalararg"]          -- the code iterates over the one operand
+         | .ok none => ["accbaremissing"]
+         | .error _ => [])
       else if strictOps.contains k then
         unproved k ++ okReasons (sEval root env v) ++ rExpr root env v ++
         (if unaryOps.contains k || k = "$size" || k = "$concatArrays" then [] else ["scalararg"]) ++
